@@ -17,8 +17,10 @@ ID = "C09"
 LEVEL = "fault_enumeration"
 TECHNIQUE = ("fault enumeration by a man in the middle: EVERY single-bit flip of authentic responses (exhaustive per base "
              "message) plus Hypothesis-generated structural forgeries (flags, digest variants, re-signing with other keys / "
-             "users / engines, plaintext substitution, garbage ciphertext, unauthenticated Reports) delivered to the real "
-             "client; oracle: the call raises, or returns exactly what the authentic response carried")
+             "users / engines incl. a second legitimate user the process talked as before, plaintext substitution under every PDU class, "
+             "garbage ciphertext, unauthenticated Reports, forged replies to every later discovery) delivered to the real "
+             "client; oracle: the call raises, or returns exactly what the authentic response carried -- and raises whenever the "
+             "answer was replaced by an unauthenticated Report")
 RULE = ("case = user {MD5, SHA-1} x {authNoPriv, authPriv} x operation {get, multiget, getnext, set, bulkget, walk, bulkwalk, walk in lenient mode (errors=warn)} x "
         "which response of the operation is attacked x mutant {bit i of the authentic response | forgery (msgFlags 0..7, digest "
         "none / zeros / original / truncated 1..11 / 13 octets / garbage / re-signed with another password, algorithm, or the key of a second legitimate user the client talked as before, user "
